@@ -308,14 +308,23 @@ func expectItem(it rspItem, m memberCase) string {
 }
 
 // checkRecord feeds a record made of members (single object when !arr) and compares with the verdicts.
+// pads are the ways insignificant JSON whitespace (space, tab, LF, CR) is put around and inside a record
+var pads = [][4]string{ // before, after '[', around ',', after
+	{"", "", ",", ""}, {" ", "", ",", " "}, {"\r\n", "", ",", ""}, {"\r", " ", ",\r", "\r"}, {"\t\n ", "\r\n", "\t,\n", "\n"},
+	{"\n", "\t", " , ", "\r\n"}, {" \r", "", ",", "\t"},
+}
+var padCounter int
+
 func checkRecord(r *rig, members []memberCase, arr bool) (string, []byte) {
 	var texts []string
 	for _, m := range members {
 		texts = append(texts, m.text)
 	}
-	rec := texts[0]
+	padCounter++
+	pd := pads[padCounter%len(pads)]
+	rec := pd[0] + texts[0] + pd[3]
 	if arr {
-		rec = "[" + strings.Join(texts, ",") + "]"
+		rec = pd[0] + "[" + pd[1] + strings.Join(texts, pd[2]) + pd[1] + "]" + pd[3]
 	}
 	calls, outs := r.feed([]byte(rec))
 	wantCalls := 0
@@ -585,7 +594,7 @@ func TestWire(t *testing.T) {
 			env := []struct {
 				txt  string
 				code int
-			}{{`[]`, tab.EmptyArray}, {` [ ] `, tab.EmptyArray}, {``, tab.Garbage}, {`   `, tab.Garbage}, {`{"jsonrpc":"2.0",`, tab.Garbage},
+			}{{`[]`, tab.EmptyArray}, {` [ ] `, tab.EmptyArray}, {"\r\n[]", tab.EmptyArray}, {"\r[\r]\r", tab.EmptyArray}, {"\t[\n]", tab.EmptyArray}, {"\r\n", tab.Garbage}, {``, tab.Garbage}, {`   `, tab.Garbage}, {`{"jsonrpc":"2.0",`, tab.Garbage},
 				{`nonsense`, tab.Garbage}, {`[1,2`, tab.Garbage}, {"\x00\xff", tab.Garbage}, {`{"a":}`, tab.Garbage}, {`}{`, tab.Garbage}}
 			for _, e := range env {
 				calls, outs := r.feed([]byte(e.txt))
